@@ -214,7 +214,7 @@ def run_shard(shard: Dict[str, Any]) -> Acc:
         case = gen_case(rng)
         acc.hist("source", "library" if "library" in case["source"] else "program")
         acc.hist("index_map", "empty" if not case["index_map"] else "mapped")
-        check_case(case, acc)
+        common.guarded(acc, check_case, case, acc, case={"noise_case": {k: v for k, v in case.items() if not k.startswith("_")}})
         nontrivial = bool(case.pop("_nontrivial", False))
         acc.case(bp.phash(case), nontrivial, sample=case)
     return acc
